@@ -172,6 +172,8 @@ type gen struct {
 	// as it is spelled; events (canonical JSON enforced from room version 6)
 	// may not carry them, so only the C02 workload sets this.
 	lits bool
+	// pendingKey: the other half of a prefix pair, for the next member drawn
+	pendingKey string
 }
 
 // numLitPool: spellings a signer must leave alone (none is a negative zero,
@@ -192,11 +194,30 @@ var stringPool = []string{"", "x", "hello world", "\u00e9", "e\u0301", "æ—¥æœ¬èª
 
 var intPool = []int64{0, 1, -1, 42, 1 << 31, 1<<53 - 1, -(1<<53 - 1), 1 << 32, -1 << 31, 9007199254740990, 100, 50}
 
+// prefixPairs: two member names of which one is a prefix of the other and the
+// longer goes on with a character below the quotation mark (or the shorter
+// ends in one that needs escaping): their order by name differs from the
+// order of their texts as written between quotation marks.
+var prefixPairs = [][2]string{{"m.tag", "m.tag extra"}, {"a", "a!"}, {"body", "body !"}, {"say\"", "sayA"}, {"k\\", "kz"}}
+
 func (g *gen) key(depth int, used map[string]any) string {
+	if g.pendingKey != "" {
+		k := g.pendingKey
+		g.pendingKey = ""
+		if _, dup := used[k]; !dup {
+			g.noteKey(k, depth)
+			g.probe("gen_member_names_prefix_pair")
+			return k
+		}
+	}
 	for tries := 0; ; tries++ {
 		var k string
 		c := g.t.Intn(20)
 		switch {
+		case c == 16 && !disabled["esckey"]:
+			pr := sim.Pick(g.t, prefixPairs)
+			i := g.t.Intn(2)
+			k, g.pendingKey = pr[i], pr[1-i]
 		case c == 17 && depth > 0:
 			k = sim.Pick(g.t, nestedOnlyKeys)
 		case c == 18 && !disabled["esckey"]:
